@@ -27,6 +27,7 @@
   Every theorem is followed by an `example` on concrete data.
 -/
 import LazyDs.Lemmas.Laws
+import LazyDs.Lemmas.FilterLaws
 
 namespace LazyDs
 
@@ -569,5 +570,52 @@ theorem C16_model_batch_unbatch {ρ : Env} (hρ : EnvOK ρ) {p : Pipeline} (ha :
   model_batch_unbatch hρ ha hn hd he hd'
 
 example : ((build menuEnv (.unbatch (.batch 2 false (.listSrc xs)))).map (·.iter) = .ok ⟨xs, none⟩) := by rfl
+
+/-! ### 12. filter fusion and filter over concatenation (predicates may raise) -/
+
+/-- C16: filter fusion. `ds.filter(f, lazy=True).filter(g, lazy=True)` is
+    `ds.filter(lambda x: f(x) and g(x), lazy=True)` in every field, for predicates that may raise:
+    `g` runs only on the examples `f` accepted, and the first exception of either ends the
+    iteration at the same place. -/
+theorem C16_filter_filter (f g : Val → Res Bool) (r : RefDS) :
+    Ref.filter g (Ref.filter f r) = Ref.filter (andThenPred f g) r :=
+  filter_filter_eq f g r
+
+/-- C16: lazy filter distributes over concatenation (`f` may raise; a failure inside an earlier part
+    hides the later parts on both sides): `concat(ds...).filter(f)` iterates, with and without
+    keys, as `concat(d.filter(f) for d in ds)`. -/
+theorem C16_filter_concat (f : Val → Res Bool) (rs : List RefDS) :
+    (Ref.filter f (Ref.concat rs)).stream = (Ref.concat (rs.map (Ref.filter f))).stream ∧
+    (Ref.filter f (Ref.concat rs)).kstream = (Ref.concat (rs.map (Ref.filter f))).kstream := by
+  simp only [Ref.filter, Ref.concat]
+  constructor
+  · induction rs with
+    | nil => simpa using filterM_nil f
+    | cons r rs ih => simp only [List.foldr_cons, List.map_cons, filterM_append, ih, Ref.filter]
+  · induction rs with
+    | nil => simpa using filterM_nil _
+    | cons r rs ih => simp only [List.foldr_cons, List.map_cons, filterM_append, ih, Ref.filter]
+
+example : (Ref.filter (fun v => .ok (isOdd v)) (Ref.concat [src, bad])).stream
+      = ⟨[.int 1, .int 3, .int 5, .int 1], some .valueError⟩ ∧
+    (Ref.concat ([src, bad].map (Ref.filter (fun v => .ok (isOdd v))))).stream
+      = ⟨[.int 1, .int 3, .int 5, .int 1], some .valueError⟩ := ⟨by rfl, by rfl⟩
+
+example : (Ref.filter (fun v => .ok (isOdd v)) (Ref.filter (fun v => failOn3 v >>= fun _ => .ok true) src)).stream
+      = ⟨[.int 1], some .valueError⟩ ∧
+    (Ref.filter (andThenPred (fun v => failOn3 v >>= fun _ => .ok true) (fun v => .ok (isOdd v))) src).stream
+      = ⟨[.int 1], some .valueError⟩ := ⟨by rfl, by rfl⟩
+
+/-- C16 on the model of the lazy code: `ds.filter(f, lazy=True).filter(g, lazy=True)` and
+    `ds.filter(h, lazy=True)` build observationally equal datasets when `h(x)` is `f(x) and g(x)`
+    (short-circuit: `g` is not called where `f` refuses). -/
+theorem C16_model_filter_filter {ρ : Env} (hρ : EnvOK ρ) {p : Pipeline} (ha : Adm ρ p) (f g h : PredSym)
+    (hh : ∀ v, ρ.pred h v = andThenPred (ρ.pred f) (ρ.pred g) v)
+    {d₁ d₂ : DS} (h₁ : build ρ (.filterLazy g (.filterLazy f p)) = .ok d₁)
+    (h₂ : build ρ (.filterLazy h p) = .ok d₂) : d₁.iter = d₂.iter ∧ ObsEq d₁ d₂ :=
+  have h := obsEq_of_ref_eq hρ (p₁ := .filterLazy g (.filterLazy f p)) (p₂ := .filterLazy h p)
+    ha ha (ref_filter_filter ρ f g h hh p) h₁ h₂
+  ⟨h.iter, h⟩
+
 
 end LazyDs
